@@ -51,9 +51,11 @@ def explore(ck):
         out = os.path.join(ck.tools.work, 'out13_' + c.id); os.makedirs(out, exist_ok=True)
         # stale files: longer than anything this run writes, and earlier results under the final names
         stale = {}
+        last = m['status'][2]
         for stem in ['blocks', 'transactions', 'tx_in', 'tx_out', 'unspent', 'balances']:
             stale['%s.csv.tmp' % stem] = b'STALE;' * 400000
-            stale['%s-0-2.csv' % stem] = b'old result\n' * 1000
+            stale['%s-0-%s.csv' % (stem, last)] = b'old result\n' * 1000          # an earlier result under the same final name: must be replaced
+            stale['%s-0-99.csv' % stem] = b'unrelated earlier result\n'              # another run's result: must stay untouched
         # background load
         load = [subprocess.Popen(['sh', '-c', 'while :; do :; done']) for _ in range(8)]
         try:
@@ -67,7 +69,10 @@ def explore(ck):
                         rr = run.run_impl(ck.tools, c, cb, datadir=dd, outdir=out if cb in run.NEEDS_DIR else None, env={'RAYON_NUM_THREADS': str(th)})
                         # only the files of this callback are compared
                         stems = {'csv': ['blocks', 'transactions', 'tx_in', 'tx_out'], 'unspent': ['unspent'], 'balances': ['balances']}.get(cb, [])
-                        rr.files = {nm: d for nm, d in rr.files.items() if any(nm.startswith(s + '-') or nm == s + '.csv.tmp' for s in stems) and not (nm.endswith('.tmp') and d == stale.get(nm))}
+                        touched = [nm for nm, d in rr.files.items() if nm.endswith('-0-99.csv') and d != stale[nm]]
+                        if touched: ck.disagreement('unrelated files of the dump folder were modified', str(touched), c, in_domain=True)
+                        rr.files = {nm: d for nm, d in rr.files.items() if any(nm.startswith(s + '-') or nm == s + '.csv.tmp' for s in stems) and not nm.endswith('-0-99.csv')
+                                    and not (nm.endswith('.tmp') and d == stale.get(nm))}
                         diffs = run.CMP[cb](rr, m, c)
                         ck.evaluated(); ck.count('threads:%d' % th); ck.count('callback:' + cb); n += 1
                         ck.nontrivial((c.id, th, cb, rep))
